@@ -36,5 +36,5 @@ Deliver, in {ws}:
                   unchanged code and exits non-zero (with a clear message) on the changed code, because the property is violated
  * notes.md     — which clause of the property breaks, what exactly is needed for it to manifest, what you ran (test-suite result
                   with the change, demo result with and without the change)
-Verify all of this yourself: apply/unapply the patch (`git -C {ws}/repo stash` / `stash pop` or `git apply -R`) and run demo.py both
+Verify all of this yourself: apply/unapply the patch (`git -C {ws}/repo apply -R {ws}/patch.diff` then `git -C {ws}/repo apply {ws}/patch.diff`; do NOT use `git stash`: the stash is shared by all worktrees) and run demo.py both
 ways. Leave the worktree with the change APPLIED. Final message: a short summary (the change, why it is subtle, results).""")
